@@ -86,8 +86,8 @@ EXHAUSTIVE = {
     "slash}; every path of 3 segments over the first 15/15/13 words; 18 hosts x 9 scheme forms x paths of 0-1 core segments; 5 queries x 17 "
     "fragments x paths of 0-2 over 5 core segments; twitter fragment paths of 0-3 segments over 11 words x {#!/, #!}; all strings of length <= 3 "
     "over {a . / : # !}; 4- and 5-segment paths are sampled",
-    "thorough": "as quick with: every path of 3 segments over the full vocabulary, every path of 4 segments over the 9/9/7 core words and of 5 "
-    "segments over 6/6/5 of them, hosts x schemes x paths of 0-2 core segments, all strings of length <= 4 over {a . / : # !}",
+    "thorough": "as quick with: every path of 3 segments over the full vocabulary, every path of 4 segments over the first 13/13/11 words and of 5 "
+    "segments over the 9/9/7 core words, hosts x schemes x paths of 0-2 core segments, all strings of length <= 4 over {a . / : # !}",
 }
 TRUSTED = [
     "Lean 4 kernel; axioms of every listed theorem audited to be within {propext, Classical.choice, Quot.sound}",
@@ -269,10 +269,10 @@ def cases(rng, tier):
         for path in _paths(segs if thorough else segs[: NCORE[p] + 6], 3, 3):
             yield _join(p, "https://", MAIN[p], path)
         # ---- 4 and 5 segments over the core vocabulary (route words + one of each segment class)
-        for path in _paths(core, 4, 4):
+        for path in _paths(segs[: NCORE[p] + 4] if thorough else core, 4, 4):
             if thorough or rng.random() < 0.25:
                 yield _join(p, "https://", MAIN[p], path)
-        for path in _paths(core[: 6 if p != "tg" else 5], 5, 5):
+        for path in _paths(core if thorough else core[: 6 if p != "tg" else 5], 5, 5):
             if thorough or rng.random() < 0.08:
                 yield _join(p, "", MAIN[p], path)
         # ---- hosts x scheme forms x paths of 0..2 core segments
@@ -338,6 +338,7 @@ def ops(case):
         if f in ("tw_parse", "tw_extract"):
             o["limit"] = TW_LIMIT
         out.append(o)
+    out.append({"f": "c19s_hostname", "url": u})
     return out
 
 
@@ -376,7 +377,9 @@ def impl(case):
         s = case["s"]
         return [g(ig.is_instagram_post_shortcode, s), g(ig.is_instagram_username, s), g(tg.is_telegram_message_id, s), g(tw.normalize_screen_name, s)]
     u = _url(case)
-    return [_rec(g(f, u)) for f in _fns(case["p"])]
+    from ural.get_hostname import get_hostname
+
+    return [_rec(g(f, u)) for f in _fns(case["p"])] + [g(get_hostname, u)]
 
 
 # --------------------------------------------------------------------------------------
